@@ -61,7 +61,7 @@ theorem invFifo_init : InvFifo {} := by simp [InvFifo, recvLog]
 
 set_option hygiene false in
 macro "ev_close" : tactic => `(tactic| (
-  all_goals (try (rcases hout with ⟨hout, hsc'⟩ | ⟨hout, hsc'⟩))
+  split_mod
   all_goals (try (simp [returnNow, startRequest, fireAndForget, State.nextId, evOpen, wellNested, startedEvents,
     recvEvents, recvLog, RunPhase.isInEvent, InvEvents, InvFifo] at *))
   all_goals (try (simp only [hws, haw, hrun, hout, hinbox, harr] at *))
